@@ -122,38 +122,49 @@ func VerifC13Class(t1, t2, perm string, nholes, xform int) {
 // spelling itself comes from strconv): under the symbolic choice of CanonicalizeRawInts /
 // CanonicalizeRawFloats, Format turns lit into canon exactly when the documentation says so
 // (-0 under either option; integers under the first, literals with fraction or exponent under
-// the second) and copies it verbatim otherwise. The literal sits in the skeleton tmpl at '#'.
-func VerifC13Num(tmpl, lit, canon string) {
+// the second) and copies it verbatim otherwise. table lists the pairs as "lit>canon|lit>canon";
+// each literal is placed in the (compact) skeleton tmpl at '#'.
+func VerifC13Num(tmpl, table string) {
 	ci, cf := vrt.Bool("ints"), vrt.Bool("floats")
-	i := bytes.IndexByte([]byte(tmpl), '#')
-	in := []byte(tmpl[:i] + lit + tmpl[i+1:])
-	want := lit
-	switch {
-	case lit == "-0":
-		if ci || cf {
-			want = "0"
+	at := bytes.IndexByte([]byte(tmpl), '#')
+	for len(table) > 0 {
+		row := table
+		if k := bytes.IndexByte([]byte(table), '|'); k >= 0 {
+			row, table = table[:k], table[k+1:]
+		} else {
+			table = ""
 		}
-	case bytes.ContainsAny([]byte(lit), ".eE"):
-		if cf {
-			want = canon
+		k := bytes.IndexByte([]byte(row), '>')
+		lit, canon := row[:k], row[k+1:]
+		in := []byte(tmpl[:at] + lit + tmpl[at+1:])
+		want := lit
+		switch {
+		case lit == "-0":
+			if ci || cf {
+				want = "0"
+			}
+		case bytes.ContainsAny([]byte(lit), ".eE"):
+			if cf {
+				want = canon
+			}
+		default:
+			if ci {
+				want = canon
+			}
 		}
-	default:
-		if ci {
-			want = canon
+		v := Value(bytes.Clone(in))
+		err := v.Format(CanonicalizeRawInts(ci), CanonicalizeRawFloats(cf))
+		vrt.Observe("out", []byte(v))
+		if want != lit {
+			vrt.Cover("respelled")
+		} else {
+			vrt.Cover("verbatim")
 		}
-	}
-	v := Value(bytes.Clone(in))
-	err := v.Format(CanonicalizeRawInts(ci), CanonicalizeRawFloats(cf))
-	vrt.Observe("out", []byte(v))
-	if want != lit {
-		vrt.Cover("respelled")
-	} else {
-		vrt.Cover("verbatim")
-	}
-	vrt.Assert("C13/num/respelled-iff-documented", err == nil && bytes.Equal(v, []byte(tmpl[:i]+want+tmpl[i+1:])))
-	if ci && cf {
-		w := Value(bytes.Clone(in))
-		err := w.Canonicalize()
-		vrt.Assert("C13/num/canonicalize-agrees", err == nil && bytes.Equal(w, v))
+		vrt.Assert("C13/num/respelled-iff-documented", err == nil && bytes.Equal(v, []byte(tmpl[:at]+want+tmpl[at+1:])))
+		if ci && cf {
+			w := Value(bytes.Clone(in))
+			err := w.Canonicalize()
+			vrt.Assert("C13/num/canonicalize-agrees", err == nil && bytes.Equal(w, v))
+		}
 	}
 }
